@@ -2103,21 +2103,16 @@ func (c *Container) runCountRange(start, end int32) (n int32) {
 		if end < int32(iv.start) {
 			break
 		}
-		// iv is superset of range
-		if int32(iv.start) < start && int32(iv.last) > end {
-			return end - start
+		// count the overlap of [iv.start, iv.last] and [start, end)
+		lo, hi := int32(iv.start), int32(iv.last)
+		if lo < start {
+			lo = start
 		}
-		// iv is subset of range
-		if int32(iv.start) >= start && int32(iv.last) < end {
-			n += iv.runlen()
+		if hi > end-1 {
+			hi = end - 1
 		}
-		// iv overlaps beginning of range
-		if int32(iv.start) < start && int32(iv.last) < end {
-			n += int32(iv.last) - start + 1
-		}
-		// iv overlaps end of range
-		if int32(iv.start) > start && int32(iv.last) >= end {
-			n += end - int32(iv.start)
+		if hi >= lo {
+			n += hi - lo + 1
 		}
 	}
 	return n
